@@ -63,13 +63,14 @@ def search(pid, repo, workdir, tier, level=None):
     lvl = level if level is not None else (1 if tier == 'thorough' else 0)
     exe = os.path.join(workdir, 'target', 'debug', 'witness')
     try:
-        r = subprocess.run([exe, pid, str(lvl)], capture_output=True, text=True, timeout=1500)
+        seed = int(os.environ.get('VERIF_SEED', '0') or 0)
+        r = subprocess.run([exe, pid, str(lvl), str(seed)], capture_output=True, text=True, timeout=1500)
     except subprocess.TimeoutExpired:
         return {'found': False, 'by': 'native bounded search', 'error': 'timeout', 'wall_s': round(time.time() - t0, 1)}
     out = r.stdout
     m = re.search(r'^WITNESS (\{.*\})\s*$', out, re.M)
     res = {'by': 'bounded native search over the grid of /verif/witness/src/main.rs, run against a scratch copy of the working tree (overflow checks on)',
-           'bounded': True, 'level': lvl, 'wall_s': round(time.time() - t0, 1), 'cmd': '%s %s %d' % (exe, pid, lvl)}
+           'bounded': True, 'level': lvl, 'wall_s': round(time.time() - t0, 1), 'cmd': '%s %s %d %d' % (exe, pid, lvl, int(os.environ.get('VERIF_SEED', '0') or 0))}
     if m:
         try:
             j = json.loads(m.group(1))
